@@ -6,7 +6,7 @@ CONSTANTS
   MaxTree = 3
   Depth = 0
 INIT Init
-NEXT Next
+NEXT MCNext
 VIEW StateView
 INVARIANTS TypeOK STHFaithful DupStable SCTBindsStored SingleIndex QueueSound
 PROPERTIES AppendOnly
